@@ -168,6 +168,13 @@ class C07(Prop, ScriptGen):
                     steps = [st_[:3] + [str(int(st_[3]) | (1 if int(st_[3]) & 4 else 0))] + st_[4:]
                              if k != (1 if r < 0.25 else len(steps) - 1) else st_ for k, st_ in enumerate(steps)]
                 yield Case(op='c07.seq', args=[x for st_ in steps for x in st_], tag=tag)
+        # CHECKMULTISIG matrix (shared with C06): all signature lists for n <= 2 keys (n = 3 in thorough), any flag set
+        for n in ((1, 2, 3) if big else (1, 2)):
+            for (sg_, spk_, mask, tag) in self.multisig_matrix(n, n % 3, 0):
+                i += 1
+                if i % nshards != shard:
+                    continue
+                yield self.vf(sg_, spk_, mask | rng.choice([0, 8]), n % 3, 0, rng.randrange(2), tag=tag)
         # (3) random byte strings
         for _ in range(26000 if big else 800):
             ti = rng.randrange(3)
